@@ -48,6 +48,10 @@ def run(ctx):
         cfg = "MC_" + fl + ctx.pick("", "_Thorough")
         r = ctx.tlc(SPEC, "Registry", cfg=cfg, coverage=True, label=cfg, timeout=ctx.pick(600, 3000))
         require_actions(ctx, r, MC_ACTIONS[fl], cfg)
+        if fl == "beacon" and ctx.thorough:
+            # three groups (one member each): more than one stale group per UnregisterStaleGroups call
+            r2 = ctx.tlc(SPEC, "Registry", cfg="MC_beacon_Wide", coverage=True, label="MC_beacon_Wide", timeout=3000)
+            require_actions(ctx, r2, MC_ACTIONS[fl], "MC_beacon_Wide")
         # 2. behaviours of the model replayed on the real registry
         g = ctx.tlc(SPEC, "Gen_Registry", cfg="Gen_" + fl, mode="simulate", num=ctx.pick(14 if fl == "tbtc" else 6, 250 if fl == "tbtc" else 100), depth=100,
                     label="Gen_" + fl, dump_trace=False, timeout=1800)
@@ -80,7 +84,8 @@ def run(ctx):
              "encrypted disk persistence; the storage call of each operation fails, succeeds, or takes effect and kills the caller as "
              "the behaviour says; directory tree, in-memory map, all lookups and all key material are compared after every step; "
              "non-trivial = behaviours with a fault, crash, archival or restart." % (
-                 ctx.pick("", "_Thorough"), ctx.pick("2 wallets x 2 indexes, 1 restart", "3 wallets x 2 indexes, 2 restarts")),
+                 ctx.pick("", "_Thorough"), ctx.pick("2 wallets x 2 indexes, 1 restart",
+                                                    "tbtc 3 wallets x 2 indexes, beacon 2 groups x 2 members and 3 groups x 1 member, 2 restarts")),
         assumptions=["storage calls of keep-common are atomic (a crash falls before or after a Save/Archive, not inside)",
                      "a signer / membership is registered at most once per process lifetime (the code appends without a check)",
                      "which stale groups were archived before a crash inside UnregisterStaleGroups depends on Go's map order: any "
